@@ -88,9 +88,8 @@ def _copy_eval(ctx, R):
     return f, ev
 
 
-def reads(ctx):
+def reads(ctx, R="R-C12-frame-aligned-reads", R2="R-C12-bytes-accounted"):
     prog = ctx.prog
-    R = "R-C12-frame-aligned-reads"
     f, ev = _copy_eval(ctx, R)
     F = S.mul(S.sym("chancount"), S.sym("sampsize"))
     loops = [n for n in f.body_nodes() if isinstance(n, ast.While)]
@@ -126,7 +125,6 @@ def reads(ctx):
                     "at the end of every read is dropped, so samples are lost and channels rotate" % (S.show(size), S.show(F), w),
                     "read size is a whole number of frames", extra={"witness": w})
     # bytes converted per read == whole frames counted
-    R2 = "R-C12-bytes-accounted"
     fb = [c for c in astq.calls_in(loop) if prog.qualify(f.module, c.func, f) == "numpy.frombuffer"]
     ctx.need(len(fb) == 1, R2, "np.frombuffer conversion not found in the read loop")
     fbc = fb[0]
